@@ -1,6 +1,6 @@
 (* the kernels regenerated from rex/rl.py coincide with the hand model (RlKernels.v / RlEnv.v): re-proved on every run *)
 From Coq Require Import Reals Lra List ZArith Bool.
-From Rex Require Import Ops RlKernels RlEnv.
+From Rex Require Import Ops RlKernels RlEnv RlLaws.
 From Rex.Generated Require Import Rl.
 (* stated at the carrier of the laws (R) with tanh / arctanh / sqrt arbitrary, and proved up to ring identities *)
 Ltac rs := cbv [oadd osub omul odiv oz oopp omax omin o0 o1 Rops b2a].
@@ -8,8 +8,6 @@ Ltac tie := first [reflexivity | rs; first [lra | ring | (repeat f_equal; first 
 
 Section Scalar.
 Variables th ath sq : R -> R.
-Lemma unsquash_tie s lo hi x : unsquash_src Rops th s lo hi x = sq_unsquash Rops th s lo hi x.
-Proof. unfold unsquash_src, sq_unsquash, clip. destruct s; cbv zeta; tie. Qed.
 Lemma scale_tie s lo hi x : scale_src Rops ath s lo hi x = sq_scale Rops ath s lo hi x.
 Proof. unfold scale_src, sq_scale. destruct s; cbv zeta; tie. Qed.
 Lemma clip_tie x lo hi : clip_src Rops x lo hi = clip Rops x lo hi.
@@ -19,6 +17,14 @@ Proof. unfold normalize_src, nv_normalize, nv_eps, clip. destruct dc, sm; cbv ze
 Lemma denormalize_tie mean var am x : denormalize_src Rops sq mean var am x = nv_denormalize Rops sq mean var am x.
 Proof. unfold denormalize_src, nv_denormalize, nv_eps. destruct am; cbv zeta; tie. Qed.
 End Scalar.
+
+(* unsquash: stated for tanh and proper bounds, so that it holds both of the pinned code and of a repaired version that
+   clips the (already in-bounds, over R) result to the box *)
+Lemma unsquash_tie s lo hi x : lo < hi -> unsquash_src Rops tanh s lo hi x = sq_unsquash Rops tanh s lo hi x.
+Proof.
+  intros H. pose proof (unsquash_in_bounds lo hi x H) as B. unfold unsquash_src. unfold sq_unsquash, clip in *.
+  destruct s; cbv zeta; first [solve [tie] | (revert B; rs; unfold Rmin, Rmax; intros B; repeat destruct Rle_dec; lra)].
+Qed.
 
 Definition mom3 (s : mom (A:=R)) : R * R * R := (m_mean s, m_var s, m_count s).
 Ltac pairs := repeat match goal with |- (_, _) = (_, _) => apply f_equal2 end.
